@@ -343,6 +343,7 @@ func c10Opt(c *Ctx) {
 	// reply, whose message comes ready-made from edns.Version: the request's EDNS version is unknown, so its options
 	// are not interpreted (RFC 6891 §6.1.3)
 	covered := map[ssa.CallInstruction]bool{}
+	prepends := map[ssa.CallInstruction]map[*ssa.Store]bool{} // per write: the stores that put an OPT built here in front of its message
 	for _, o := range opts {
 		for _, st := range storesToField(serve, fExtra) {
 			if !backSlice(st.Val, nil)[o] {
@@ -352,8 +353,18 @@ func c10Opt(c *Ctx) {
 			for _, w := range callsTo(serve, func(f *types.Func) bool { return f == write }) {
 				if sameSources(w.Common().Args[2], msg) && (instrDominates(st, w) || reachable(st.Block(), nil)[w.Block()]) {
 					covered[w] = true
+					if prepends[w] == nil {
+						prepends[w] = map[*ssa.Store]bool{}
+					}
+					prepends[w][st] = true
 				}
 			}
+		}
+	}
+	onePrepend := true
+	for _, sts := range prepends {
+		if len(sts) != 1 {
+			onePrepend = false // two OPT records in one reply
 		}
 	}
 	nw := 0
@@ -374,7 +385,8 @@ func c10Opt(c *Ctx) {
 		}
 		c.Check(rule, k+"|carries-echoed-OPT", covered[w], w.Pos(), "a response written for a request with EDNS0 / a client subnet gets an OPT built here with the option echoed (left to SizeAndDo, the request's OPT is reused with the client subnet option filtered out)")
 	}
-	c.Check(rule, fnName(serve)+"|one-reattachment-site-per-answer-write", len(opts) >= 2 && len(opts) == len(covered), serve.Pos(), fmt.Sprintf("%d OPT constructions for %d covered response writes (of %d writes)", len(opts), len(covered), nw))
+	// the OPT may be built once and prepended at each write, or built at each write: what matters is one prepend per reply
+	c.Check(rule, fnName(serve)+"|one-reattachment-site-per-answer-write", len(opts) >= 1 && len(covered) >= 2 && onePrepend, serve.Pos(), fmt.Sprintf("%d OPT constructions for %d covered response writes (of %d writes)", len(opts), len(covered), nw))
 	// writes of the entry point that follow an answer: those whose message is not a fresh REFUSED/BADVERS one are covered by one OPT site each
 	for i, o := range opts {
 		k := fmt.Sprintf("%s|opt#%d", fnName(serve), i)
